@@ -164,8 +164,10 @@ def real_term(v):
     return None
 
 def _float_to_fraction_str(v):
+    """a float constant read as the real number its shortest decimal repr
+    denotes (floats are modelled as mathematical reals anyway)"""
     from fractions import Fraction
-    f = Fraction(v)
+    f = Fraction(repr(v))
     return "%d/%d" % (f.numerator, f.denominator)
 
 def bool_term(v):
@@ -414,6 +416,32 @@ def is_buflike(v):
 #   path context
 # ----------------------------------------------------------------------------
 
+def cvc5_check(assertions, seconds):
+    """'unsat' / 'sat' / 'unknown' from /usr/bin/cvc5 on the conjunction"""
+    import subprocess, tempfile, os
+    try:
+        s2 = z3.Solver()
+        s2.add(assertions)
+        text = "(set-logic ALL)\n" + s2.to_smt2()
+    except Exception:
+        return 'unknown'
+    fn = None
+    try:
+        with tempfile.NamedTemporaryFile('w', suffix='.smt2', delete=False) as f:
+            f.write(text)
+            fn = f.name
+        p = subprocess.run(['/usr/bin/cvc5', '--tlimit=%d' % (seconds * 1000), fn], capture_output=True, text=True, timeout=seconds + 5)
+        out = p.stdout.strip().splitlines()
+        return out[0] if out and out[0] in ('sat', 'unsat') else 'unknown'
+    except Exception:
+        return 'unknown'
+    finally:
+        if fn:
+            try:
+                os.unlink(fn)
+            except OSError:
+                pass
+
 class Obligation(object):
     __slots__ = ('name', 'status', 'model', 'detail', 'solver_s', 'backend', 'path', 'inputs', 'size')
     def __init__(self, name, status, model=None, detail=None, solver_s=0.0, backend='z3', path=None, inputs=None, size=0):
@@ -431,6 +459,7 @@ class PathCtx(object):
 
     def __init__(self, prefix=(), rlimit=20000000, timeout_ms=60000, max_decisions=400):
         self.solver = z3.Solver()
+        self.timeout_ms = timeout_ms
         self.solver.set('timeout', timeout_ms)
         self.solver.set('rlimit', rlimit)
         self.prefix = list(prefix)
@@ -589,12 +618,18 @@ class PathCtx(object):
             return choice
         if k >= self.max_decisions:
             raise PathBudget("more than %d decisions on one path" % self.max_decisions)
+        self.solver.set('timeout', min(self.timeout_ms, 10000))
         rt = self._check(t)
         if rt == z3.unsat:
             # the path condition is satisfiable (invariant), so not-t is feasible
             rf = z3.sat
         else:
             rf = self._check(z3.Not(t))
+        self.solver.set('timeout', self.timeout_ms)
+        if rt == z3.unknown and cvc5_check(list(self.solver.assertions()) + [t], 10) == 'unsat':
+            rt = z3.unsat
+        if rf == z3.unknown and cvc5_check(list(self.solver.assertions()) + [z3.Not(t)], 10) == 'unsat':
+            rf = z3.unsat
         if rt == z3.unknown or rf == z3.unknown:
             self.imprecise.append("decide: solver unknown")
         can_t = rt != z3.unsat
@@ -634,11 +669,22 @@ class PathCtx(object):
             self.obligations.append(Obligation(name, 'proved', detail=detail, path=list(self.decisions), size=0))
             return True
         t0 = time.time()
+        backend = 'z3'
+        # a short z3 attempt first; cvc5 takes what z3 leaves open; then z3 with the full budget
+        self.solver.set('timeout', min(self.timeout_ms, 4000))
         r = self._check(z3.Not(t))
+        self.solver.set('timeout', self.timeout_ms)
+        if r == z3.unknown:
+            c5 = cvc5_check(list(self.solver.assertions()) + [z3.Not(t)], 30)
+            if c5 == 'unsat':
+                r = z3.unsat
+                backend = 'cvc5'
+            else:
+                r = self._check(z3.Not(t))
         dt = time.time() - t0
         size = len(self.solver.assertions())
         if r == z3.unsat:
-            self.obligations.append(Obligation(name, 'proved', detail=detail, solver_s=dt, path=list(self.decisions), size=size))
+            self.obligations.append(Obligation(name, 'proved', detail=detail, solver_s=dt, path=list(self.decisions), size=size, backend=backend))
             return True
         if r == z3.sat:
             m = self.solver.model()
